@@ -9,7 +9,7 @@ Python                                                     Lean
 ------                                                     ----
 concatenate: `names[bisect(cum_dims, b) - 1]`, `b - cum`   `concatPlan` (= `blockOf` on the block counts)
 x[a:b] (slice with Python's negative-wrap / clipping)      `pySlice`
-pad_reuse (ndim = 1): select / orient / block             `padReuse`
+pad_reuse / _pad_reuse_pieces (one axis)                   `padCopies`, `piecesAway`, `padSide`, `padReuse`
 np.pad reflect/symmetric/wrap (periodic extension)         `padSpec`
 reshape.expand_tuple / contract_tuple                      `expandTuple` / `contractTuple`
 _shuffle: grouping loop, sorter, source chunks, takers      `packGroups`, `sortPairs`, `runsBy`, `shuffleChunk`
@@ -69,20 +69,53 @@ def repeatSlabs {α} (slabs : List (List α)) (r : Nat) : List α :=
 inductive PadMode where | reflect | symmetric | wrap
   deriving Repr, DecidableEq
 
-/-- `pad_reuse` for a 1-d array: the three pieces `block([left, x, right])`.
-    reflect:   left = x[1:l+1][::-1],  right = x[n-r-1:n-1][::-1]
-    symmetric: left = x[:l][::-1],     right = x[n-r:][::-1]
-    wrap:      left = x[n-l:],         right = x[:r]
-    (slices with Python semantics: a negative start wraps, bounds are clipped) -/
-def padReuse {α} (mode : PadMode) (xs : List α) (l r : Nat) : List α :=
-  let n : Int := xs.length
+/-! `pad_reuse` (after `fix: da.pad reflect/symmetric/wrap with a pad wider than the axis`): axis by axis, each side is
+    assembled from as many (alternately reversed) copies of the array as the width needs plus one partial copy -/
+
+inductive Side where | before | after
+  deriving Repr, DecidableEq
+
+/-- `(period, forward, backward)` of `_pad_reuse_pieces` -/
+def padCopies {α} (mode : PadMode) (side : Side) (xs : List α) : Nat × List α × List α :=
+  let n := xs.length
   match mode with
+  | .wrap => (n, xs, xs)
+  | .symmetric => (n, xs, xs.reverse)
   | .reflect =>
-    (pySlice xs (some 1) (some ((l : Int) + 1))).reverse ++ xs ++ (pySlice xs (some (n - r - 1)) (some (n - 1))).reverse
-  | .symmetric =>
-    (pySlice xs none (some (l : Int))).reverse ++ xs ++ (pySlice xs (some (n - r)) none).reverse
-  | .wrap =>
-    pySlice xs (some (n - l)) none ++ xs ++ pySlice xs none (some (r : Int))
+    if n = 1 then (1, xs, xs)
+    else match side with
+      | .before => (n - 1, xs.take (n - 1), (xs.drop 1).reverse)       -- x[:-1], x[:0:-1]
+      | .after => (n - 1, xs.drop 1, (xs.take (n - 1)).reverse)        -- x[1:],  x[-2::-1]
+
+/-- the `while remaining > 0` loop: pieces listed going away from the array -/
+def piecesAway {α} (mode : PadMode) (side : Side) (period : Nat) (fwd bwd : List α) : Nat → Nat → Nat → List (List α)
+  | 0, _, _ => []
+  | fuel + 1, i, remaining =>
+    if remaining = 0 then []
+    else
+      let piece := if mode = .wrap ∨ i % 2 = 1 then fwd else bwd
+      let piece := if remaining < period then
+          (match side with
+           | .before => piece.drop (period - remaining)
+           | .after => piece.take remaining)
+        else piece
+      piece :: piecesAway mode side period fwd bwd fuel (i + 1) (remaining - period)
+
+/-- `_pad_reuse_pieces(array, axis, width, mode, side)`, flattened along the axis -/
+def padSide {α} (mode : PadMode) (side : Side) (xs : List α) (width : Nat) : List α :=
+  let (period, fwd, bwd) := padCopies mode side xs
+  let pieces := piecesAway mode side period fwd bwd width 0 width
+  match side with
+  | .before => pieces.reverse.flatten
+  | .after => pieces.flatten
+
+/-- `pad_reuse` for a 1-d array; `none` = ValueError (extending an empty axis) -/
+def padReuse {α} (mode : PadMode) (xs : List α) (l r : Nat) : Option (List α) :=
+  if l = 0 ∧ r = 0 then some xs
+  else if xs.length = 0 then none
+  else some (padSide mode .before xs l ++ xs ++ padSide mode .after xs r)
+
+
 
 /-- source index of NumPy's periodic extension at offset `t` from the start of the data -/
 def padIndex (mode : PadMode) (n : Nat) (t : Int) : Nat :=
